@@ -802,3 +802,42 @@ fn x7_symlen_nondet_index() {
     assert!(c.b[i] == want[i]);
     core::mem::forget(r);
 }
+
+fn x8_byte(length: u16, label: &[u8], ctx: &[u8], i: usize) -> u8 {
+    const PREFIX: [u8; 8] = [0x4d, 0x4c, 0x53, 0x20, 0x31, 0x2e, 0x30, 0x20];
+    let ll = label.len();
+    if i == 0 {
+        (length >> 8) as u8
+    } else if i == 1 {
+        (length & 0xff) as u8
+    } else if i == 2 {
+        (8 + ll) as u8
+    } else if i < 11 {
+        PREFIX[i - 3]
+    } else if i < 11 + ll {
+        label[i - 11]
+    } else if i == 11 + ll {
+        ctx.len() as u8
+    } else {
+        ctx[i - 12 - ll]
+    }
+}
+
+#[kani::proof]
+#[kani::stub(zeroize::optimization_barrier, noop_barrier)]
+#[kani::unwind(12)]
+fn x8_symlen_byte_oracle() {
+    let p = GhostProvider::new();
+    let secret = any_exact::<2>();
+    let label = any_bytes::<4>();
+    let r = kdf_derive_secret(&p, &secret, &label);
+    assert!(r.is_ok());
+    assert!(p.calls() == 1);
+    let c = p.trace.borrow()[0];
+    let want_len = 2 + 1 + 8 + label.len() + 1;
+    assert!(c.b_len == want_len);
+    let i: usize = kani::any();
+    kani::assume(i < want_len);
+    assert!(c.b[i] == x8_byte(NH as u16, &label, &[], i));
+    core::mem::forget(r);
+}
